@@ -1900,7 +1900,7 @@ fn main() {
     simple_finish(
         &ctx,
         rep,
-        "agree: case = one query holding a reserved word (AND OR NOT IN TO) where a value stands: keyword x quoting (double / single quotes, each also with a redundant backslash, bare, bare with a backslash) x field form (none, text, blank before / after the colon, string, JSON path, escaped name, unknown) x 50 contexts (alone, parentheses, + / - / NOT, next to terms, operand of AND / OR on either side, boosts, member of a field group, set element, range bound); the first pass walks through all combinations with the exact keyword and single blanks, the following passes through the same combinations with random content (lower case, keyword next to a word, two keywords, padded, glued), suffix (* ~n) and whitespace; judged like the totality inputs (same workers, same four entry points x 4 QueryParser configurations); non-trivial = accepted by the strict grammar, distinct = keyword x quoting x field form x context. total: case = one generated string (classes: random UTF-8, lossy byte soup, metacharacter soup, valid queries, their mutations, every prefix of one, unbalanced quotes/brackets, splices, keyword/whitespace variants, long inputs up to 1 MB, nesting <= 200) fed - inside memory-capped worker processes, so that hangs, unbounded allocation and stack overflows are survivable and attributable - to grammar parse_query/parse_query_lenient and to 4 QueryParser configurations (strict + lenient); non-trivial = the string contains grammar metacharacters/keywords; distinct = input class x character-class skeleton (first 28). sem: case = one corpus (1-40 docs, 1-2 segments, every field type, typed fields INDEXED or INDEXED|FAST, three fields whose analyzer removes tokens - sw and the JSON field jt: stop words, lg: tokens of 6 bytes or more - next to the default tokenizer's 40-byte limit on title/body/js, documents embedding pooled sentences with removed tokens between kept ones and phrase / phrase~slop / phrase* / multi-token literals cut from them, plus one title-only document per subset of three focus words) with 10/25 abstract queries, each printed with random whitespace/escaping/quoting/case/redundant parentheses/boosts, parsed in disjunction and conjunction mode and compared (Count and DocSetCollector via the id fast field) with a naive evaluation on the model documents, failing queries are shrunk; non-trivial = accepted by both parsers with the expected match set; distinct = set of grammar features in the query. depth: child-process sweeps of 6 nesting shapes x 4 entry points on an 8 MB main-thread stack.",
+        "agree: case = one query holding a reserved word (AND OR NOT IN TO) where a value stands: keyword x quoting (double / single quotes, each also with a redundant backslash, bare, bare with a backslash) x field form (none, text, blank before / after the colon, string, JSON path, escaped name, unknown) x 50 contexts (alone, parentheses, + / - / NOT, next to terms, operand of AND / OR on either side, boosts, member of a field group, set element, range bound); the first pass walks through all combinations with the exact keyword and single blanks, the following passes through the same combinations with random content (lower case, keyword next to a word, two keywords, padded, glued), suffix (* ~n) and whitespace; judged like the totality inputs (same workers, same four entry points x 4 QueryParser configurations); non-trivial = accepted by the strict grammar, distinct = keyword x quoting x field form x context. total: case = one generated string (classes: random UTF-8, lossy byte soup, metacharacter soup, valid queries, their mutations, every prefix of one, unbalanced quotes/brackets, splices, keyword/whitespace variants, long inputs up to 1 MB, nesting <= 200) fed - inside memory-capped worker processes, so that hangs, unbounded allocation and stack overflows are survivable and attributable - to grammar parse_query/parse_query_lenient and to 4 QueryParser configurations (strict + lenient); non-trivial = the string contains grammar metacharacters/keywords; distinct = input class x character-class skeleton (first 28). sem: case = one corpus (1-40 docs, 1-2 segments, every field type, typed fields INDEXED or INDEXED|FAST, three fields whose analyzer removes tokens - sw and the JSON field jt: stop words, lg: tokens of 6 bytes or more - next to the default tokenizer's 40-byte limit on title/body/js, documents embedding pooled sentences with removed tokens between kept ones - one sentence per analyzer always reads kept kept [kept] removed kept - and phrase / phrase~slop / phrase* / multi-token literals cut from them, about 5 % of the leaves being a prefix phrase cut over such a gap (two or more kept tokens, a removed token, then the prefix), plus one title-only document per subset of three focus words) with 10/25 abstract queries, each printed with random whitespace/escaping/quoting/case/redundant parentheses/boosts, parsed in disjunction and conjunction mode and compared (Count and DocSetCollector via the id fast field) with a naive evaluation on the model documents, failing queries are shrunk; non-trivial = accepted by both parsers with the expected match set; distinct = set of grammar features in the query. depth: child-process sweeps of 6 nesting shapes x 4 entry points on an 8 MB main-thread stack.",
         ctx.scale(500, 5_000),
         &[
             "documented grammar = doc comment of tantivy::query::QueryParser; only forms it defines are generated in the semantic stream (NOT only as a synonym of '-' inside an occur list, as the grammar crate's own tests define it; AND/OR chains whose operands carry '-' or '+' follow the grammar crate's tests: inside a conjunction '-' excludes and '+' changes nothing, a conjunction made only of excluded operands - e.g. the '-y' of 'x OR -y' - matches nothing, '+' is never written on a lone OR alternative; field groups 'field:( expr )' give their field to every unfielded term below them, through boosts and parentheses, and are generated on non-default fields only; field:* (exists) only at syntax-tree level and field:(group) only in the totality stream because QueryParser does not document them; a query made only of excluded clauses must be rejected with AllButQueryForbidden)",
